@@ -20,6 +20,7 @@ From UV.Gen Require Import Tables.
 From UV.Py Require Import PyStr.
 From UV.Vers Require Import Model VersText TotalityProofs.
 From UV.Schemes Require Import Common Generic LegacyOpenssl Gentoo Debian Semver TotalityProofs.
+From UV.Schemes Require Import Rpm Gem Arch Openssl TotalityProofs2.
 Import ListNotations.
 
 Theorem C16_from_string_fails_only_with_declared_errors :
@@ -46,6 +47,13 @@ Proof.
   - exact leg_ctor_declared.
 Qed.
 
+Theorem C16_later_constructors_fail_only_with_InvalidVersion :
+  (forall s e, rpm_ctor s = Err e -> e = EInvalidVersion) /\
+  (forall s e, gem_ctor s = Err e -> e = EInvalidVersion) /\
+  (forall s e, arch_ctor s = Err e -> e = EInvalidVersion) /\
+  (forall s e, ossl_ctor s = Err e -> e = EInvalidVersion).
+Proof. repeat split; [exact rpm_ctor_declared|exact gem_ctor_declared|exact arch_ctor_declared|exact ossl_ctor_declared]. Qed.
+
 (* the builders behind the validity checks cannot raise *)
 Theorem C16_no_internal_error_behind_the_validity_checks :
   (forall s, exists o, leg_parse s = Ok o) /\ (forall s e, coerce s = Err e -> e = EValue).
@@ -53,4 +61,5 @@ Proof. split; [exact leg_parse_total|exact coerce_declared]. Qed.
 
 Print Assumptions C16_from_string_fails_only_with_declared_errors.
 Print Assumptions C16_constructors_fail_only_with_InvalidVersion.
+Print Assumptions C16_later_constructors_fail_only_with_InvalidVersion.
 Print Assumptions C16_no_internal_error_behind_the_validity_checks.
